@@ -16,6 +16,15 @@ FAMILIES = {
         'thorough': dict(consts=dict(N=12, MaxKids=4, MinHi=0, AllowStar=True, Axes={'ctc'}, MaxCtc=2, CtcDepth=1, CtcBinOps=LOGIC_BIN,
                                      CtcMinFeatures=8), invariants=tlc.GEN_INVARIANTS, simulate=dict(num=3000, depth=12)),
     },
+    # one or two relations over 20 to 100 leaf children: counts beyond 2^31, judged on decimal digit sequences (FMBig)
+    'WideLeaves': {
+        'quick':    dict(module='FMWide', defaults=False, invariants=['TypeOK'],
+                         consts=dict(Ns={33, 57, 64, 100}, Cards={'or', 'alt', 'mutex', '2to5', 'all', 'any', 'star2', 'half'},
+                                     Seconds={'none', 'or20', 'mutex64'})),
+        'thorough': dict(module='FMWide', defaults=False, invariants=['TypeOK'],
+                         consts=dict(Ns={20, 31, 32, 33, 52, 53, 57, 63, 64, 65, 100, 128}, Cards={'or', 'alt', 'mutex', '2to5', 'all', 'any', 'star2', 'half'},
+                                     Seconds={'none', 'opt', 'or20', 'alt33', 'mutex64'})),
+    },
     # wide groups: up to 7 children in one relation, at most two relations
     'Wide': {
         'quick':    dict(consts=dict(N=8, MaxKids=7, MinHi=0, MaxLevel=3), invariants=tlc.GEN_INVARIANTS, cap=2500),
@@ -32,6 +41,13 @@ FAMILIES = {
                                      CtcMinFeatures=2), invariants=tlc.GEN_INVARIANTS, cap=2500),
         'thorough': dict(consts=dict(N=2, MaxKids=1, MinHi=1, Axes={'ctc'}, MaxCtc=3, CtcDepth=1, CtcBinOps={'IMPLIES', 'EXCLUDES', 'OR'},
                                      CtcMinFeatures=2), invariants=tlc.GEN_INVARIANTS, cap=20000),
+    },
+    # two or three requires-type constraints over four or five features (seeded walks): several sources of one target, chains
+    'Req2': {
+        'quick':    dict(consts=dict(N=5, MaxKids=2, MinHi=0, Axes={'ctc'}, MaxCtc=3, CtcDepth=1, CtcBinOps={'IMPLIES', 'REQUIRES'}, CtcMinFeatures=4),
+                         invariants=tlc.GEN_INVARIANTS, simulate=dict(num=500, depth=9), cap=900),
+        'thorough': dict(consts=dict(N=6, MaxKids=3, MinHi=0, Axes={'ctc'}, MaxCtc=3, CtcDepth=1, CtcBinOps={'IMPLIES', 'REQUIRES', 'EXCLUDES'}, CtcMinFeatures=4),
+                         invariants=tlc.GEN_INVARIANTS, simulate=dict(num=6000, depth=10), cap=8000),
     },
     # every decoration at once (seeded walks): abstract + typed + feature cardinality + attributes + constraints
     'Mix': {
@@ -77,23 +93,26 @@ FAMILIES = {
     },
     # constraint trees: all of depth <= 2 over three names, plus arithmetic/aggregate shapes
     'Ast': {
-        'quick':    dict(module='FMAstGen', consts=dict(ANames={'f1', 'f2', 'f3'}, BinOps=LOGIC_BIN, Depth=2, GrowSteps=0, WithArith=True, Walks=0, Seed=0),
+        'quick':    dict(module='FMAstGen', consts=dict(ANames={'f1', 'f2', 'f3'}, BinOps=LOGIC_BIN, Depth=2, GrowSteps=0, WithArith=True, Walks=0, Seed=0, NegLits=0),
                          invariants=['L8_Forms', 'L_Shape'], defaults=False),
-        'thorough': dict(module='FMAstGen', consts=dict(ANames={'f1', 'f2', 'f3'}, BinOps=LOGIC_BIN, Depth=2, GrowSteps=0, WithArith=True, Walks=0, Seed=0),
+        'thorough': dict(module='FMAstGen', consts=dict(ANames={'f1', 'f2', 'f3'}, BinOps=LOGIC_BIN, Depth=2, GrowSteps=0, WithArith=True, Walks=0, Seed=0, NegLits=0),
                          invariants=['L8_Forms', 'L_Shape'], defaults=False),
     },
     # random deeper trees (simulation)
     'AstDeep': {
-        'quick':    dict(module='FMAstGen', consts=dict(ANames={'f1', 'f2', 'f3'}, BinOps=LOGIC_BIN, Depth=1, GrowSteps=2, WithArith=False,
+        'quick':    dict(module='FMAstGen', consts=dict(ANames={'f1', 'f2', 'f3'}, BinOps=LOGIC_BIN, Depth=1, GrowSteps=2, WithArith=False, NegLits=0,
                                                        Walks=300), invariants=['L_Shape'], defaults=False, walks_ast=True),
-        'thorough': dict(module='FMAstGen', consts=dict(ANames={'f1', 'f2', 'f3', 'f4'}, BinOps=LOGIC_BIN, Depth=1, GrowSteps=2, WithArith=False,
+        'thorough': dict(module='FMAstGen', consts=dict(ANames={'f1', 'f2', 'f3', 'f4'}, BinOps=LOGIC_BIN, Depth=1, GrowSteps=2, WithArith=False, NegLits=0,
                                                        Walks=5000), invariants=['L_Shape'], defaults=False, walks_ast=True),
     },
+    'AstNeg': {   # one operator over two literals with up to three redundant negations each
+        t: dict(module='FMAstGen', consts=dict(ANames={'f1', 'f2'}, BinOps=LOGIC_BIN, Depth=0, GrowSteps=0, WithArith=False, Walks=0, Seed=0, NegLits=3),
+                invariants=['L_Shape'], defaults=False) for t in ('quick', 'thorough')},
     'AstNNF': {   # walks inside the and/or/not fragment (what CNF conversion works on), to depth 4
         'quick':    dict(module='FMAstGen', consts=dict(ANames={'f1', 'f2', 'f3', 'f4'}, BinOps={'AND', 'OR'}, Depth=1, GrowSteps=3,
-                                                       WithArith=False, Walks=700), invariants=['L_Shape'], defaults=False, walks_ast=True),
+                                                       WithArith=False, NegLits=0, Walks=700), invariants=['L_Shape'], defaults=False, walks_ast=True),
         'thorough': dict(module='FMAstGen', consts=dict(ANames={'f1', 'f2', 'f3', 'f4'}, BinOps={'AND', 'OR'}, Depth=1, GrowSteps=4,
-                                                       WithArith=False, Walks=8000), invariants=['L_Shape'], defaults=False, walks_ast=True),
+                                                       WithArith=False, NegLits=0, Walks=8000), invariants=['L_Shape'], defaults=False, walks_ast=True),
     },
     'DecorAttr': {
         'quick':    dict(consts=dict(N=3, MaxKids=2, MinHi=1, Axes={'attr'}, AttrNames=['a1'],
@@ -149,7 +168,7 @@ FAMILIES = {
 
 ATTR_VALS_JSON = [{'val': v, 'dom': '', 'nul': 'n'} for v in
                   ['n', 'b:true', 'b:false', 'i:5', 'i:0', 'd:1.5', 's:txt', 's:two words', 's:true', 's:False', 's:5', 'l:[i:1,s:x]',
-                   'm:{s:k=i:1}']]
+                   'm:{s:k=i:1}', 'd:0.30000000000000004', 'i:-7', 'd:1e-07', 'i:123456789012345678']]
 ALL_OPS_NOT_XOR = LOGIC_BIN - {'XOR'}
 
 
@@ -234,7 +253,7 @@ ATTR_VALS_AFM = [{'val': 's:3', 'dom': 'R:i:1..i:5|E:', 'nul': 's:0'},
                  {'val': 's:1', 'dom': 'R:|E:s:1,s:2', 'nul': 's:2'}]
 FAMILIES.update(fmt_families('afm', ALL_OPS_NOT_XOR, ATTR_VALS_AFM, abstract=False))
 ATTR_VALS_UVL = [{'val': v, 'dom': '', 'nul': 'n'} for v in
-                 ['n', 'b:true', 'b:false', 'i:5', 'i:0', 'i:-5', 'd:1.5', 'd:0.1234567', 'd:-2.25', 's:txt', 's:two words', 's:true', 's:static//img',
+                 ['n', 'b:true', 'b:false', 'i:5', 'i:0', 'i:-5', 'd:1.5', 'd:0.1234567', 'd:-2.25', 'd:0.30000000000000004', 'd:0.3333333333333333', 's:txt', 's:two words', 's:true', 's:static//img',
                   's:word word word word word word word word word word word word word word word word word word word word word word word word word word end',
                   'l:[i:1,i:2]', 'l:[i:5]', 'l:[s:x,d:2.5,i:-3]', 'm:{s:k=i:1}', 'm:{s:k=m:{s:j=s:v}}']]
 FAMILIES.update(fmt_families('uvl', ALL_OPS_NOT_XOR, ATTR_VALS_UVL, star=True, extra={
@@ -306,7 +325,7 @@ FAMILIES.update({
     },
     'Deep-Ctc': {   # walks: one or two constraints grown to depth 3-4 over three or four features
         'quick':    dict(consts=dict(N=4, MaxKids=3, MinHi=1, Axes={'ctc'}, MaxCtc=2, CtcDepth=1, CtcBinOps=LOGIC_BIN, CtcMinFeatures=3,
-                                     CtcGrow=2), invariants=tlc.GEN_INVARIANTS, simulate=dict(num=600, depth=10)),
+                                     CtcGrow=3), invariants=tlc.GEN_INVARIANTS, simulate=dict(num=600, depth=11)),
         'thorough': dict(consts=dict(N=4, MaxKids=3, MinHi=1, Axes={'ctc'}, MaxCtc=2, CtcDepth=1, CtcBinOps=LOGIC_BIN, CtcMinFeatures=3,
                                      CtcGrow=2), invariants=tlc.GEN_INVARIANTS, simulate=dict(num=6000, depth=12)),
     },
@@ -345,15 +364,15 @@ def surface(dims, brokens, pool):
 
 
 B = ['0', '1']
-FAMILIES['Surface-uvl'] = surface({'quote': B, 'parens': B, 'merge': B, 'comments': B,
+FAMILIES['Surface-uvl'] = surface({'quote': B, 'parens': B, 'merge': B, 'comments': B, 'flat': B,
                                    'header': ['none', 'namespace', 'imports', 'include', 'all']},
-                                  ['bracket', 'operator', 'section', 'indent', 'badchar'], 12)   # pool size 12
+                                  ['bracket', 'operator', 'section', 'indent', 'badchar'], 18)   # pool size 18
 
 FAMILIES['Surface-fide'] = surface({'order': B, 'optattr': ['implicit', 'explicit'], 'nary': B, 'extras': B, 'pretty': B, 'noctc': B, 'groupmand': B},
-                                   ['unknownrule'], 14)
+                                   ['unknownrule'], 18)
 FAMILIES['Surface-xml'] = surface({'order': B, 'pretty': B, 'relnames': B, 'cardfirst': B, 'setsingle': ['0']}, ['duplicate'], 10)
-FAMILIES['Surface-afm'] = surface({'parens': B, 'order': B}, ['relational'], 12)
-FAMILIES['Surface-glencoe'] = surface({'ids': B, 'order': B, 'extras': B, 'minmax': B, 'pretty': B, 'nary': B}, ['unknowntype'], 14)
+FAMILIES['Surface-afm'] = surface({'parens': B, 'order': B}, ['relational'], 14)
+FAMILIES['Surface-glencoe'] = surface({'ids': B, 'order': B, 'extras': B, 'minmax': B, 'pretty': B, 'nary': B}, ['unknowntype'], 18)
 FAMILIES.update({
     'Ref-xml': {t: dict(consts=dict(N=5, MaxKids=3, MinHi=0, Axes={'ctc'}, MaxCtc=2, CtcDepth=1, CtcBinOps={'REQUIRES', 'EXCLUDES'},
                                     CtcMinFeatures=4, MaxLevel=7),
@@ -381,7 +400,7 @@ FAMILIES.update({
 # Edit histories: a built model is observed, edited IN PLACE through public attributes (cardinality, add / remove a
 # child, abstract flag, attribute value, remove a constraint, root operator of a constraint, rename), and observed again
 # by the same objects.  Cases are the states after >= 1 edit; `base` is the model before the first edit.
-EDIT_KINDS = {'card', 'addchild', 'rmkid', 'replkid', 'move', 'import', 'abs', 'rmctc', 'ctcop', 'rename'}
+EDIT_KINDS = {'card', 'addchild', 'rmkid', 'replkid', 'move', 'reown', 'import', 'abs', 'rmctc', 'ctcop', 'rename'}
 
 
 def edit_families(prefix, fmt='', ops=frozenset({'IMPLIES', 'OR', 'EXCLUDES', 'AND'}), abstract=True, attrs=None, star=False,
@@ -390,13 +409,18 @@ def edit_families(prefix, fmt='', ops=frozenset({'IMPLIES', 'OR', 'EXCLUDES', 'A
     axes = {'ctc'} | ({'abs'} if abstract else set())
     walk = dict(N=6, MaxKids=3, MinHi=0, AllowStar=star, Axes=axes | ({'attr'} if attrs else set()), AttrNames=['a1'],
                 AttrVals=attrs or set(), MaxCtc=2, CtcDepth=1, CtcBinOps=set(ops), CtcMinFeatures=3, CtcGrow=1,
-                MaxEdits=3, EditKinds=kinds | ({'attrval'} if attrs else set()), Fmt=fmt)
+                MaxEdits=3, EditKinds=kinds | ({'attrval', 'attrname', 'rmattr'} if attrs else set()), Fmt=fmt)
     one = dict(N=3, MaxKids=2, MinHi=0, AllowStar=False, Axes={'ctc'}, MaxCtc=1, CtcDepth=1, CtcBinOps=set(ops), CtcMinFeatures=2,
                MaxEdits=1, EditKinds=kinds - {'abs'}, Fmt=fmt)
+    struct = dict(N=4, MaxKids=3, MinHi=0, AllowStar=False, MaxEdits=1, EditKinds=kinds - {'abs', 'rmctc', 'ctcop', 'import'}, Fmt=fmt)
     return {
-        prefix + 'Edit1': {    # exhaustive: every single edit of every small model
+        prefix + 'Edit1': {    # exhaustive: every single edit of every model with up to three features and one constraint
             'quick':    dict(consts=one, invariants=tlc.GEN_INVARIANTS, cap=q[0]),
-            'thorough': dict(consts=dict(one, N=4), invariants=tlc.GEN_INVARIANTS, cap=t[0]),
+            'thorough': dict(consts=one, invariants=tlc.GEN_INVARIANTS, cap=t[0]),
+        },
+        prefix + 'Edit1s': {   # exhaustive: every single structural edit of every tree with up to four features
+            'quick':    dict(consts=struct, invariants=tlc.GEN_INVARIANTS, cap=max(150, q[0] // 2)),
+            'thorough': dict(consts=struct, invariants=tlc.GEN_INVARIANTS, cap=t[0]),
         },
         prefix + 'EditWalk': {  # seeded walks: larger models, up to three edits
             'quick':    dict(consts=walk, invariants=tlc.GEN_INVARIANTS, simulate=dict(num=q[1], depth=16), cap=q[0]),
